@@ -12,6 +12,8 @@ pub mod message_parser;
 pub mod sequence_parser;
 mod swift_parser;
 pub mod utils;
+#[cfg(swiftmt_verif)]
+pub mod verif_trace;
 
 // Re-export generated parser functions
 pub use generated::{extract_base_tag, normalize_field_tag, parse_block4_fields};
